@@ -488,7 +488,12 @@ func lpmLookup[T any](root *lpmNode[T], key index.Key) (value T, ok bool) {
 		nodePrefixLen := node.prefixLen()
 		matchLen := longestMatch(currentLen, node, keyData, keyPrefixLen)
 		if matchLen == keyPrefixLen {
-			return node.value, !node.imaginary
+			if !node.imaginary {
+				return node.value, true
+			}
+			// An imaginary node holds no value, fall back to the
+			// closest prefix that covers the key.
+			break
 		}
 		if matchLen < nodePrefixLen {
 			break
